@@ -27,7 +27,7 @@ Non-trivial = the plain run succeeds and a tag sits on an argument the word insp
 };
 
 /// word: alternatives of argument tuples.  Codes are explained in `gen_arg`.
-const TABLE: &[(&str, &str)] = &[
+pub const TABLE: &[(&str, &str)] = &[
     ("insert", "M A Ks"),
     ("remove", "M Ks"),
     ("equal?", "A A"),
@@ -176,7 +176,7 @@ const COMPUTING: &[&str] = &[
     "nulbytestr", "cstr", "base32", "base32hex", "base64", "zero85", "base32>", "base32hex>", "base64>", "zero85>",
 ];
 
-const INPUT: [u8; 16] = [0x41, 0x31, 0x00, 0x7f, 0x80, 0xff, 0x12, 0x34, 0x56, 0x78, 0x9a, 0x00, 0x40, 0x49, 0x0f, 0xdb];
+pub const INPUT: [u8; 16] = [0x41, 0x31, 0x00, 0x7f, 0x80, 0xff, 0x12, 0x34, 0x56, 0x78, 0x9a, 0x00, 0x40, 0x49, 0x0f, 0xdb];
 const ENCODED: [&str; 4] = ["IEYQ====", "84OG====", "QTE=", "xK#0@"];
 
 fn bytes_bits(b: &[u8]) -> Vec<bool> {
@@ -189,7 +189,7 @@ fn bytes_bits(b: &[u8]) -> Vec<bool> {
     v
 }
 
-fn gen_arg(ch: &mut Choices, code: &str) -> V {
+pub fn gen_arg(ch: &mut Choices, code: &str) -> V {
     match code {
         "A" => val::gen_value(ch, 2),
         "I" => V::Int(match ch.weighted(&[8, 2]) {
